@@ -126,6 +126,9 @@ def check(run):
     # every container the generic code can be instantiated with hands out its elements in logical order
     from common import dep_backends as _dep_backends
     _dep_backends(run)
+    # the buffers every kernel writes into / every collector returns are the backends' own, of the requested size
+    from common import dep_alloc as _dep_alloc
+    _dep_alloc(run, polars=True)
     return run.finish(
         'other',
         'All call sites of the unchecked accessors (uget / uslice / uset / uget_mut / '
